@@ -6,26 +6,26 @@ sys.path.insert(0, ROOT)
 from checks_config import CHECKS
 
 TECH = {
-    "C01": "runtime monitoring: ownership ledger + liveness cookies + cell scans at destruct events under a seeded serialized scheduler with stall rules (mode S), free-running delay injection (mode P), scripted choreography d4; ASan in thorough",
-    "C02": "runtime monitoring: ledger of (guard, snapshot, origin) vs destruct/dealloc events, liveness cookies, serialized scheduler with stall rules, role-based focused workloads, scripted choreographies d5-d7; ASan in thorough",
-    "C03": "runtime monitoring: ledger of weak holders vs DEALLOC events, count-word reads through weak handles, quiescent weak-count audit; serialized scheduler + delay injection; ASan in thorough",
-    "C04": "runtime monitoring: exactly-once counters on pop_edges/Drop/dealloc online + quiescent conservation audit (counts == owning cells, nothing live after roots released) after every execution",
-    "C05": "runtime monitoring: online upgrade-history oracle (result vs destruct-begun / DESTRUCTED_SET stamps, monotonicity of failures) in the serialized total order; boundary subset in mode P",
-    "C06": "runtime monitoring: epoch-advance count between head drop and last destructor vs 12*(1+ceil(n/1024)) over shapes x sizes x link ages x 16 residues",
-    "C07": "runtime monitoring: child processes on configured stack sizes (exit status, drops==n, flat peak stack)",
-    "C08": "runtime monitoring: call/return histories of cell ops checked for linearizability (Wing-Gong, P-compositional per cell) + boundary checks + quiescent count audit",
-    "C09": "runtime monitoring: same history checker and boundary checks for AtomicWeak with expected values obtained three ways + weak-count audit",
-    "C10": "runtime monitoring: sequential enumeration of constructors/prefixes/release orders with count-word introspection and destructor counters; bulk ops in concurrent programs",
-    "C11": "runtime monitoring: reference bit model vs shimmed Tagged ops (enumeration) + public API at all 16 epoch residues",
-    "C12": "runtime monitoring: reference model vs shimmed State/Modular (enumeration) + end-to-end cascade-vs-defer decisions observed at destructor boundary",
-    "C13": "runtime monitoring: closure execution vs set of guards registered at deferral (private collectors) under serialized scheduler with stalls in pin/try_advance/push_bag/collect; mode P",
-    "C14": "runtime monitoring: epoch sampler at every yield point (monotone, single steps, global-announced in {0,1} for registered guards); per-holder checks in mode P",
-    "C15": "runtime monitoring: per-closure execution counters with checksummed captures of all sizes/alignments across thread exit and collector drop; bounded rounds",
-    "C16": "runtime monitoring: three-line pinned-state model checked through local_state after every guard op; enumeration of guard programs + serialized multi-thread runs",
+    "C01": "runtime monitoring: ownership ledger + liveness cookies + cell scans at destruct events under a seeded serialized scheduler with stall rules (mode S), free-running delay injection (mode P), scripted choreography d4; ASan in thorough; scripted scenarios d14 (work under an outer guard) and d16 (guards in a thread-local destructor after the handle is gone) ending with Snapshot::counted",
+    "C02": "runtime monitoring: ledger of (guard, snapshot, origin) vs destruct/dealloc events, liveness cookies, serialized scheduler with stall rules, role-based focused workloads, scripted choreographies d5-d7; ASan in thorough; scenarios d13/d14/d16; choreographed late-reader profile c02g; the repository's own Harris list / DoubleLink queue as monitored workloads",
+    "C03": "runtime monitoring: ledger of weak holders vs DEALLOC events, count-word reads through weak handles, quiescent weak-count audit; serialized scheduler + delay injection; ASan in thorough; choreographed profiles c03g/c03h; scenario d14 with WeakSnapshot holders",
+    "C04": "runtime monitoring: exactly-once counters on pop_edges/Drop/dealloc online + quiescent conservation audit (counts == owning cells, nothing live after roots released) after every execution; thread tear-down child processes (objects released in TLS destructors)",
+    "C05": "runtime monitoring: online upgrade-history oracle (result vs destruct-begun / DESTRUCTED_SET stamps, monotonicity of failures) in the serialized total order; boundary subset in mode P; sequential sweep of upgrades around the recursion cut-offs of deep chains; scenario d14 with upgraded snapshots",
+    "C06": "runtime monitoring: epoch-advance count between head drop and last destructor vs 12*(1+ceil(n/1024)) over shapes x sizes x link ages x 16 residues; DAG / shared-survivor / swap-based pop_edges / re-acquired-node shapes; choreographed c02g (cascade skips referenced children)",
+    "C07": "runtime monitoring: child processes on configured stack sizes (exit status, drops==n, flat peak stack); concurrent count-word traffic on the nodes being reclaimed; flatness in n and in backlog size",
+    "C08": "runtime monitoring: call/return histories of cell ops checked for linearizability (Wing-Gong, P-compositional per cell) + boundary checks + quiescent count audit; focused profile c08r (CAS-ers against re-stampers)",
+    "C09": "runtime monitoring: same history checker and boundary checks for AtomicWeak with expected values obtained three ways + weak-count audit; focused profile c09r",
+    "C10": "runtime monitoring: sequential enumeration of constructors/prefixes/release orders with count-word introspection and destructor counters; bulk ops in concurrent programs; concurrent bulk profile c10b with ledger attribution to bulk-born objects; owners regained through weak_many shares",
+    "C11": "runtime monitoring: reference bit model vs shimmed Tagged ops (enumeration) + public API at all 16 epoch residues; concurrent CAS-vs-restamp profiles (stamp invisible in CAS results)",
+    "C12": "runtime monitoring: reference model vs shimmed State/Modular (enumeration) + end-to-end cascade-vs-defer decisions observed at destructor boundary; the same decision under choreographed concurrency (scenario d7, profile c02g) where the true stamp age is known",
+    "C13": "runtime monitoring: closure execution vs set of guards registered at deferral (private collectors) under serialized scheduler with stalls in pin/try_advance/push_bag/collect; mode P; reference-counting layer on top: c16rc, c02g, c03g, scenarios d13/d14/d16",
+    "C14": "runtime monitoring: epoch sampler at every yield point (monotone, single steps, global-announced in {0,1} for registered guards); per-holder checks in mode P; also global - (epoch a live guard was taken at) in {0,1}; scenarios d14/d16",
+    "C15": "runtime monitoring: per-closure execution counters with checksummed captures of all sizes/alignments across thread exit and collector drop; bounded rounds; survivor rounds of varying shape incl. behind a parked participant with a backlog; panicking reactivate_after closures",
+    "C16": "runtime monitoring: three-line pinned-state model checked through local_state after every guard op; enumeration of guard programs + serialized multi-thread runs; scenarios d10/d13/d14/d15/d16 (guards in destructors during collection, kept beyond it, in TLS destructors)",
     "C17": "runtime monitoring: queue call/return histories (unique values) checked for FIFO linearizability + conservation under serialized scheduler with stalls at queue atomics; mode P",
     "C18": "runtime monitoring: membership-interval checker over list traversals + finalize-once counters under serialized scheduler; mode P",
-    "C19": "runtime monitoring: exhaustive pairs/triples over a pointer pool vs Option<&T> model and Eq/Ord/Hash laws",
-    "C20": "runtime monitoring: child processes with thread-local destructors calling the API in both TLS orders, debug and release (exit status, TLS dtor count, drop totals after bounded rounds)",
+    "C19": "runtime monitoring: exhaustive pairs/triples over a pointer pool vs Option<&T> model and Eq/Ord/Hash laws; one pool per referent alignment 8/16/64 with tags up to the largest; model independent of the library's as_ref",
+    "C20": "runtime monitoring: child processes with thread-local destructors calling the API in both TLS orders, debug and release (exit status, TLS dtor count, drop totals after bounded rounds); retirement through one guard around a flush / 100 times; first-use race of 4-12 threads in a fresh process",
 }
 LEVEL = {
     "default": ("exploration", "held on the executions / inputs actually produced (counts, sites preempted, residues covered are in the evidence); nothing is claimed for schedules or inputs no run produced"),
